@@ -86,7 +86,7 @@ def gen():
     os.makedirs(OUT, exist_ok=True)
     tmp = "/tmp/mut-gen"
     repo_copy(tmp)
-    code, out = sh("go run . %s %s > %s" % (tmp, "ast" if SET else "", F("mutants.jsonl")), cwd=os.path.join(ROOT, "tools", "mutgen"))
+    code, out = sh("go run . %s %s > %s" % (tmp, "ast" if "ast" in SET else "", F("mutants.jsonl")), cwd=os.path.join(ROOT, "tools", "mutgen"))
     print(out.strip())
     shutil.rmtree(tmp, ignore_errors=True)
 
